@@ -304,6 +304,9 @@ func genOp1(s source, w *world, g *genState) op {
 				o.kind = opAppendContainer
 			}
 		}
+		if !w.growthBounded(o.tgt, o.other) {
+			o.kind = opGetAll // bounded histories, see growthBounded
+		}
 	case opGet, opGetAsContainer, opGetMax, opPeek, opPeekContainer:
 		o.n = genReq(s, held)
 	case opWriteToSlice:
@@ -430,7 +433,7 @@ func TestPropWireRead(t *testing.T) {
 		var prefix []byte
 		var l uint64
 		cls := ""
-		switch pick(s, "prefixkind", []int{4, 3, 3, 2, 2, 2}) {
+		switch pick(s, "prefixkind", []int{4, 3, 3, 4, 3, 2}) {
 		case 0:
 			l, cls = uint64(len(body)), "prefix_exact"
 		case 1:
@@ -555,8 +558,7 @@ func FuzzWire(f *testing.F) {
 				return
 			}
 		}
-		w := newWorld(t)
-		w.light = true
+		w := newLightWorld(t)
 		// cut after every (sel%4+1) bytes
 		step := sel%4 + 1
 		var parts [][]byte
